@@ -101,7 +101,7 @@ func Project(roots []*boc.Cell) *Table {
 	return t
 }
 
-// Build makes ordinary cells in memory from a table (X must be 0 everywhere). Shared rows become shared
+// Build makes cells in memory from a table (ordinary rows, X = 0, and library cells, X = 2). Shared rows become shared
 // pointers when share is true, otherwise every use gets its own copy (a tree).
 func Build(t *Table, share bool) ([]*boc.Cell, error) {
 	n := len(t.Cells)
@@ -111,10 +111,13 @@ func Build(t *Table, share bool) ([]*boc.Cell, error) {
 		if share && made[i] != nil {
 			return made[i], nil
 		}
-		if t.Cells[i].X != 0 {
+		if t.Cells[i].X != 0 && t.Cells[i].X != 2 {
 			return nil, fmt.Errorf("row %d is exotic: cannot be built in memory", i)
 		}
 		c := boc.NewCell()
+		if t.Cells[i].X == 2 { // a library cell (type byte + 32-byte hash, no references): the one exotic cell the public API can build
+			c = boc.NewCellExotic(boc.LibraryCell)
+		}
 		for _, ch := range t.Cells[i].B {
 			if err := c.WriteBit(ch == '1'); err != nil {
 				return nil, err
@@ -279,4 +282,13 @@ func WideTable(n int) *Table {
 		t.Cells[i] = c
 	}
 	return t
+}
+
+// RandBitsN: exactly n random bits.
+func RandBitsN(rng *rand.Rand, n int) string {
+	var sb strings.Builder
+	for i := 0; i < n; i++ {
+		sb.WriteByte("01"[rng.Intn(2)])
+	}
+	return sb.String()
 }
